@@ -498,6 +498,16 @@ class TaskScenario(ScenarioData):
         return result_dt_4
 
     def schedule(self) -> bool:
+        try:
+            return self._schedule()
+        except OverflowError:
+            # A gap or date so large that the dependency bound cannot even be represented
+            # lies beyond any horizon: the task cannot be placed
+            self.currentSlotIdx = None
+            self.isRunAway = True
+            return False
+
+    def _schedule(self) -> bool:
         if self.scheduled:
             return True
 
